@@ -119,7 +119,10 @@ def _history(draw):
     reach = cmdrun.reachable_zones(i5)
     ops = []
     for _ in range(draw(st.integers(3, 25))):
-        k = draw(st.sampled_from(["push_ac", "push_ac", "push_zone", "push_timer", "error_mode", "call", "call", "call"]))
+        k = draw(st.sampled_from(["push_ac", "push_ac", "push_zone", "push_timer", "error_mode", "call", "call", "call", "call", "reinit"]))
+        if k == "reinit":
+            ops.append(["reinit"])
+            continue
         if k == "push_ac":
             ops.append(["push_ac", [draw(_ac_common(n)) for n in draw(st.lists(st.sampled_from(ac_ids), min_size=1, max_size=3))]])
         elif k == "push_zone" and zone_ids:
@@ -224,6 +227,15 @@ def run_history(case, stats: Stats | None):
         compare("after init")
         n_rej = n_acc = n_push = 0
         for op in case["ops"]:
+            if op[0] == "reinit":
+                # both applications reload their client (shutdown + init on the same object)
+                for gen in (4, 5):
+                    use(gen)
+                    sides[gen][0].do(["reinit"])
+                    sides[gen][1].console_reported()
+                n_push += 1
+                compare("after re-init")
+                continue
             if op[0] == "error_mode":
                 for gen in (4, 5):
                     use(gen)
